@@ -337,7 +337,7 @@ def replay_dict_index(name, model, repo):
     """native confirmation for dict_index.pair_roundtrip[..]: the real encode_dict and the real value branch of core.read_data_page"""
     import re
     from .c11_encoders import _sub
-    m = re.search(r"\[(codes|cast):u?int(\d+)", name)
+    m = re.search(r"\[(codes|cast):(?:np\.)?u?int(\d+)", name)
     if not m or "pair_roundtrip" not in name:
         return False, "no native replay registered for this obligation", None
     unsigned = "uint" in name.split("[", 1)[1]
@@ -347,7 +347,8 @@ def replay_dict_index(name, model, repo):
 import sys, json
 sys.path.insert(0, {repo!r})
 import numpy as np, pandas as pd
-from fastparquet import writer, core, encoding
+from fastparquet import writer
+from fastparquet import cencoding as encoding
 vals = np.array([0, 1, {min(vmax, 2 ** 62)} % (1 << {w - (0 if unsigned else 1)}), 3, 4, 5, 6, 7], dtype="{'u' if unsigned else ''}int{w}")
 blk = writer.encode_dict(pd.Series(vals), None)
 # the value branch of core.read_data_page for an own file (selfmade=True), fed with exactly these bytes
